@@ -1,0 +1,12 @@
+// +build !verif
+
+package common
+
+import (
+	"io"
+	"time"
+)
+
+func verifAPIIntercept(method string, endpoint string, body io.Reader, timeout time.Duration, ret interface{}) (handled bool, code int, err error) {
+	return false, 0, nil
+}
